@@ -21,6 +21,7 @@ from harness import tlc
 from harness.common import MachineryFailure, run_workers
 
 MOD = "harness.drivers.c06"
+NPROC = int(os.environ.get("VERIF_NPROC", "16"))        # development on a shared machine: VERIF_NPROC=4
 STARTUP0 = dt.datetime(2019, 9, 1, 13, 0, 0, 100000)
 
 
@@ -74,6 +75,8 @@ class Direct:
 # =============================================================================== (a) timer_trigger_next
 def gen_next_case(r, cid, masked, dow_names):
     """one (spec list <= 3, now, startup) triple"""
+    if r.random() < 0.05:
+        return gen_repeated_hour_case(r, cid, masked)
     n = r.choice([1, 1, 1, 1, 2, 2, 3])
     specs = [tf.gen_spec(r, dow_names) for _ in range(n)]
     # startup: the (fixed) time the trigger was first evaluated; now >= startup
@@ -93,7 +96,7 @@ def gen_next_case(r, cid, masked, dow_names):
                 startup = now
         if _is_gap(now):
             continue                    # a wall-clock reading that does not exist
-        if masked and not all(tf.mask_ok_once(sp, now) for sp in specs):
+        if masked and not all(tf.mask_ok_once(sp, now) and tf.mask_ok_period(sp) for sp in specs):
             continue
         break
     else:
@@ -104,8 +107,29 @@ def gen_next_case(r, cid, masked, dow_names):
     return {"kind": "next", "id": cid, "masked": masked, "asstr": r.random() < 0.5, "texts": [sp["text"] for sp in specs],
             "forms": [tf.form_class(sp) for sp in specs], "mds": [_md(sp) for sp in specs],
             "sunoff": [sp["kind"] == "once" and tf.sun_crosses_day(sp["dt"]) for sp in specs],
+            "xday": [not tf.mask_ok_period(sp) for sp in specs],
             "specs": [tf.spec_struct(sp) for sp in specs],
             "now": {"t": tf.enc(now), "fold": fold}, "startup": tf.enc(startup)}
+
+
+def gen_repeated_hour_case(r, cid, masked):
+    """cron() evaluated inside the hour that is repeated when clocks are set back, first and second pass"""
+    tr = r.choice([t for t in tf.transitions_in_window() if not t["fwd"] and tf.WIN_FROM <= t["local"] <= tf.WIN_TO])
+    amb_start = tr["local"] - dt.timedelta(seconds=tr["before"] - tr["after"])           # 01:00
+    now = amb_start + dt.timedelta(seconds=r.choice([0, 1, 600, 1199, 1200, 1800, 3000, 3599, r.randint(0, 3599)]),
+                                   microseconds=r.choice([0, 0, 1, 999999]))
+    specs = []
+    for _ in range(r.choice([1, 1, 2])):
+        txt = r.choice(["*/20 1-3 * * *", "55 1 * * *", "30 1 * * *", "1 1-4 * * *", "* * * * *", "0 2 * * *", "*/7 * * * *",
+                        "59 1,2 * * *", "%d 1 * * *" % r.randint(0, 59), "%d * * * * %d" % (r.randint(0, 59), r.randint(0, 59))])
+        c = tf.cron_struct(txt)
+        c["text"] = "cron(%s)" % txt
+        specs.append(c)
+    startup = now - dt.timedelta(days=r.choice([1, 30]))
+    return {"kind": "next", "id": cid, "masked": masked, "asstr": r.random() < 0.5, "texts": [sp["text"] for sp in specs],
+            "forms": ["cron"] * len(specs), "mds": [""] * len(specs), "sunoff": [False] * len(specs),
+            "specs": [tf.spec_struct(sp) for sp in specs], "now": {"t": tf.enc(now), "fold": r.choice([0, 1, 1])},
+            "startup": tf.enc(startup)}
 
 
 def _uses_now(sp):
@@ -195,13 +219,16 @@ def tlc_cases(cases):
     return out
 
 
-def accept(ctx, cases, label, chunks=8):
+_LOCK = __import__("threading").Lock()
+
+
+def accept(ctx, cases, label, chunks=8, size=700):
     """Validate cases with spec/TimeTrace.tla (several TLC processes side by side); returns
     {id: reject record}."""
     import concurrent.futures as cf
     if not cases:
         return {}
-    chunks = max(1, min(chunks, len(cases) // 200 + 1))
+    chunks = max(1, min(chunks, NPROC, len(cases) // size + 1))
     parts = [cases[i::chunks] for i in range(chunks)]
     paths = []
     for k, part in enumerate(parts):
@@ -215,7 +242,8 @@ def accept(ctx, cases, label, chunks=8):
     for part, res in zip(parts, results):
         if res.distinct != len(part) + 1:
             raise MachineryFailure("TimeTrace visited %d states for %d cases (%s)" % (res.distinct, len(part), label))
-        ctx.add_tlc(res, "TimeTrace:%s" % label)
+        with _LOCK:
+            ctx.add_tlc(res, "TimeTrace:%s" % label)
         for rj in res.rejects:
             if "raw" in rj:
                 raise MachineryFailure("unparsable REJECT line: %s" % rj["raw"][:300])
@@ -230,10 +258,13 @@ def sig_next(c, rj):
            "space": "masked" if c["masked"] else "unmasked"}
     if idx and c.get("sunoff") and c["sunoff"][idx - 1]:
         sig["sunoff"] = True
+    if idx and c.get("xday") and c["xday"][idx - 1]:
+        sig["xday"] = True
     if rj["clause"] == "adj":
         sig["crossed"] = rj["dst"] != "none"
         del sig["form"], sig["space"]
         sig.pop("sunoff", None)
+        sig.pop("xday", None)
     if rj["clause"] == "exception":
         sig["exc"] = c["obs"].get("exc", "")
         md = c["mds"][idx - 1] if idx else ""
@@ -242,8 +273,8 @@ def sig_next(c, rj):
     return sig
 
 
-def judge_next(ctx, cases, label):
-    rejects = accept(ctx, cases, label)
+def judge_next(ctx, cases, label, rejects=None):
+    rejects = accept(ctx, cases, label) if rejects is None else rejects
     for c in cases:
         rj = rejects.get(c["id"])
         if rj:
@@ -490,7 +521,7 @@ def gen_scenario(r, sid, family, legacy, dow_names):
                               "text": "period(%s, %s)" % (_hms(sec), itxt)})
             elif k == "period-dailyend":
                 p = tf.gen_period(r)
-                while not (p["start"]["date"]["k"] == "none" and p["hasend"] and p["isec"] >= 1200):
+                while not (p["start"]["date"]["k"] == "none" and p["hasend"] and p["isec"] >= 1200 and tf.mask_ok_period(p)):
                     p = tf.gen_period(r)
                 specs.append(p)
             else:
@@ -535,7 +566,7 @@ def work_run(job):
     names = None
     for k in range(job["count"]):
         fam = job["families"][k % len(job["families"])]
-        scn = gen_scenario(r, "r%d.%d" % (job["seed"], k), fam, legacy=bool((k // len(job["families"])) % 2), dow_names=names)
+        scn = gen_scenario(r, "r%d.%d" % (job["seed"], k), fam, legacy=r.random() < 0.5, dow_names=names)
         out.append({"scn": scn, "case": scenario_case(scn, run_scenario(scn))})
     for scn in job.get("extra", []):
         out.append({"scn": scn, "case": scenario_case(scn, run_scenario(scn))})
@@ -557,10 +588,10 @@ def sig_run(c, rj):
     return sig
 
 
-def judge_run(ctx, results, label):
+def judge_run(ctx, results, label, rejects=None):
     cases = [x["case"] for x in results]
     scn_of = {x["case"]["id"]: x["scn"] for x in results}
-    rejects = accept(ctx, cases, label)
+    rejects = accept(ctx, cases, label, size=60) if rejects is None else rejects
     for c in cases:
         rj = rejects.get(c["id"])
         if rj:
@@ -638,6 +669,14 @@ def active_cases(seed, count, maxn=4, dow_names=None):
     return [gen_active_case(r, "a%d.%d" % (seed, k), dow_names, maxn) for k in range(count)]
 
 
+def witness_active_cases():
+    T = dt.datetime
+    md = lambda m, d, sec: _f(date={"k": "md", "m": m, "d": d}, sec=sec)              # noqa: E731
+    return [{"kind": "active", "id": "w.active.feb29", "texts": ["range(2/29 8:00, 3/1 9:00)"], "aslist": False,
+             "specs": [{"neg": False, "k": "range", "start": md(2, 29, 8 * 3600), "end": md(3, 1, 9 * 3600)}],
+             "t": tf.enc(T(2021, 2, 28, 12, 0)), "startup": tf.enc(T(2021, 1, 1, 9, 0)), "shape": ["range"]}]
+
+
 def eval_active(D, case):
     """run the real timer_active_check on a case; fills case['obs'] ("T" / "F" / "exc")"""
     arg = case["texts"] if case["aslist"] else case["texts"][0]
@@ -653,7 +692,7 @@ def eval_active(D, case):
 def work_active(job):
     D = Direct()
     try:
-        return [eval_active(D, c) for c in active_cases(job["seed"], job["count"], dow_names=D.dow_names)]
+        return [eval_active(D, c) for c in active_cases(job["seed"], job["count"], dow_names=D.dow_names) + job.get("extra", [])]
     finally:
         D.close()
 
@@ -666,14 +705,21 @@ def work_active_replay(job):
         D.close()
 
 
-def judge_active(ctx, cases, label, level="active"):
+def judge_active(ctx, cases, label, level="active", rejects=None):
     """validate observed verdicts (cases carry 'obs') against TimeSpec!Active; C07 can pass recordings of
     the decorator path with level='decorator' and its own signature fields in case['sigx']"""
-    rejects = accept(ctx, cases, label)
+    rejects = accept(ctx, cases, label) if rejects is None else rejects
     for c in cases:
         rj = rejects.get(c["id"])
         if rj:
             sig = {"level": level, "clause": rj["clause"], "shape": "+".join(c.get("shape", []))}
+            if rj["clause"] == "exception":
+                sig["exc"] = c.get("exc", "")
+                yr = tf.dec(c["t"]).year
+                leap = yr % 4 == 0 and (yr % 100 != 0 or yr % 400 == 0)
+                if not leap and any(w["k"] == "range" and any(w[e]["date"]["k"] == "md" and (w[e]["date"]["m"], w[e]["date"]["d"]) == (2, 29)
+                                                              for e in ("start", "end")) for w in c["specs"]):
+                    sig["feb29"] = True
             sig.update(c.get("sigx", {}))
             ctx.report(sig, "time_active window: %s (%s)" % (rj["clause"], sig["shape"]), {"level": level, "case": c, "reject": rj})
     ctx.cov["traces_validated_against_impl"] += len(cases)
@@ -779,12 +825,17 @@ def mc_catalogue(quick):
     add([_p(_f(date=now, off=H), 2 * H, _f(date=now, off=9 * H)), _o(sec=4 * H)], 1800, 1 * D, [N0(2019, 3, 8, 9, 30)])
     add([_o(date=md(12, 31), sec=23 * H), _o(date=full(2020, 1, 1), sec=0), _c("0 0 1 * *")], 3600, 3 * D, [S4])
     if quick:
-        # quick tier: two start times per entry, short look-ahead for the yearly entries
-        for e in cat:
+        # quick tier: every second plain entry, at most two start times (lemma entry: eight), short
+        # look-ahead for the yearly entries; the thorough tier checks the whole catalogue
+        keep = []
+        for n, e in enumerate(cat):
+            if e["tag"] == "" and len(e["specs"]) == 1 and n % 2 == 1:
+                continue
             if e["look"] > 100 * D and e["g"] < 86400:
                 e["look"] = 40 * D
-            if 2 < len(e["starts"]) <= 4:
-                e["starts"] = e["starts"][:2]
+            e["starts"] = e["starts"][::2] if e["tag"] == "lemma" else e["starts"][:2]
+            keep.append(e)
+        cat = keep
     return cat
 
 
@@ -804,7 +855,7 @@ def write_mc(ctx, quick):
                 "EXTENDS Integers\n"
                 "MaxSteps == %d\nMCEnv == %s\nCat == <<\n  %s\n>>\n"
                 "=============================================================================\n" % (
-                    6 if quick else 14, to_tla(small_env), ",\n  ".join(to_tla(e) for e in cat)))
+                    5 if quick else 14, to_tla(small_env), ",\n  ".join(to_tla(e) for e in cat)))
     return d, cat
 
 
@@ -817,7 +868,7 @@ def model_check(ctx):
     cfg = os.path.join(d, "TimeMC.cfg")
     with open(cfg, "w") as f:
         f.write("SPECIFICATION Spec\nCHECK_DEADLOCK FALSE\nINVARIANT Witnesses\n" + "".join("INVARIANT %s\n" % t for t in MC_THEOREMS))
-    res = tlc.run("TimeMC", cfg, ctx.scratch, spec_dir=d, timeout=3000)
+    res = tlc.run("TimeMC", cfg, ctx.scratch, spec_dir=d, timeout=3000, workers=NPROC)
     ctx.add_tlc(res, "TimeMC(%d catalogue entries)" % len(cat))
     if not res.ok:
         ctx.report({"level": "model", "clause": res.violated}, "TimeMC.tla violates %s" % res.violated, {"level": "model", "cex": res.cex})
@@ -943,6 +994,7 @@ def witness_next_cases():
         ("w.once-adj", ["once(3:00)"], [_o(sec=3 * 3600)], T(2019, 3, 9, 18, 0), su),
         ("w.period-adj", ["period(0:00, 6h)"], [_p(_f(sec=0), 6 * 3600)], T(2019, 3, 10, 1, 0), su),
         ("w.sun-offset", ["once(sunrise - 90h)"], [_o(tod="sunrise", off=-90 * 3600)], T(2019, 3, 5, 12, 7, 15, 1), su),
+        ("w.period-start-before-day", ["period(midnight - 30 m, 1 day, 01:30)"], [_p(_f(sec=0, off=-1800), 86400, _f(sec=5400))], T(2019, 7, 1, 23, 30, 0, 1), su),
         ("w.sun-offset-late", ["once(sunrise + 20h)"], [_o(tod="sunrise", off=20 * 3600)], None, su),
     ]
     out = []
@@ -950,13 +1002,12 @@ def witness_next_cases():
         if now is None:
             # 1 us before the instant derived from yesterday's sunrise, in a season where sunrise gets earlier
             now = dt.datetime(2019, 4, 9) + dt.timedelta(seconds=tf.sun_sec(dt.date(2019, 4, 9), "sunrise") + 20 * 3600) - tf.US
-        sps = [{"kind": s["kind"], "dt": s.get("dt"), "start": s.get("start")} for s in specs]
-        forms = [("once(%s)" % s["dt"]["date"]["k"]) if s["kind"] == "once" else "period(daily)" for s in specs]
+        forms = [("once(%s)" % s["dt"]["date"]["k"]) if s["kind"] == "once" else ("period(daily,end)" if s["hasend"] else "period(daily)") for s in specs]
         out.append({"kind": "next", "id": cid, "masked": False, "asstr": True, "texts": texts, "forms": forms,
                     "mds": ["%d/%d" % (s["dt"]["date"]["m"], s["dt"]["date"]["d"]) if s["kind"] == "once" and s["dt"]["date"]["k"] == "md" else "" for s in specs],
                     "sunoff": [s["kind"] == "once" and tf.sun_crosses_day(s["dt"]) for s in specs],
+                    "xday": [not tf.mask_ok_period(s) for s in specs],
                     "specs": specs, "now": {"t": tf.enc(now), "fold": 0}, "startup": tf.enc(startup)})
-        del sps
     return out
 
 
@@ -971,8 +1022,11 @@ def witness_scenarios():
     for legacy in (False, True):
         L = "L" if legacy else "D"
         add("w.run.once-fwd." + L, legacy, B(2019, 3, 9, 18, 0), ["once(3:00)"], [_o(sec=3 * 3600)], ["once(none)"], 40 * 3600)
+        add("w.run.period-fwd." + L, legacy, B(2020, 3, 7, 20, 0), ["period(0:00:00, 6h)"], [_p(_f(sec=0), 6 * 3600)], ["period(daily)"], 20 * 3600)
         add("w.run.dow." + L, legacy, B(2019, 9, 13, 8, 0), ["once(fri 14:51:37)"], [_o(date={"k": "dow", "w": 5}, sec=14 * 3600 + 51 * 60 + 37)], ["once(dow)"], 9 * 86400)
         add("w.run.sun." + L, legacy, B(2019, 3, 1, 0, 0), ["once(sunrise - 90h)"], [_o(tod="sunrise", off=-90 * 3600)], ["once(none)"], 5 * 86400, [True])
+        add("w.run.sun-skip." + L, legacy, tf.enc(dt.datetime(2020, 3, 7, 18, 45, 32, 300000)), ["once(sunset - 2 days)"],
+            [_o(tod="sunset", off=-2 * 86400)], ["once(none)"], 4 * 86400, [True])
     add("w.run.cron-back.D", False, B(2019, 11, 2, 18, 0), ["cron(0 3 * * *)"], [_c("0 3 * * *")], ["cron"], 40 * 3600)
     add("w.run.cron-back.L", True, B(2019, 11, 2, 18, 0), ["cron(0 3 * * *)"], [_c("0 3 * * *")], ["cron"], 40 * 3600)    # legacy is correct here
     return S
@@ -1049,11 +1103,11 @@ def main(ctx):
                        "cpu_children_s": round(c.ru_utime + c.ru_stime - mark["c"].ru_utime - mark["c"].ru_stime, 1)})
         mark["t"], mark["c"] = time.time(), c
     # 0. the environment tables and the specification itself
-    rej = accept(ctx, env_cases(), "env", chunks=1)
-    if rej:
-        raise MachineryFailure("environment table disagrees with the zone database: %s" % list(rej.values())[:3])
     docs = doc_examples()
-    rej = accept(ctx, docs, "docs", chunks=1)
+    rej = accept(ctx, env_cases() + docs, "env+docs", chunks=1)
+    bad_env = [r for r in rej.values() if r["clause"].startswith("env-")]
+    if bad_env:
+        raise MachineryFailure("environment table disagrees with the zone database: %s" % bad_env[:3])
     if rej:
         raise MachineryFailure("TimeSpec disagrees with the repository's documented examples: %s" % list(rej.values())[:3])
     ctx.cov["documented_examples_replayed"] = len(docs)
@@ -1066,33 +1120,45 @@ def main(ctx):
     # (M) runs beside the recordings
     pool = cf.ThreadPoolExecutor(max_workers=1)
     mc_future = pool.submit(model_check, ctx) if "mc" in parts else None
-    # (T) recordings
-    next_cases, run_results, act_cases = [], [], []
-    if "next" in parts:
-        n_next = max(1, int(ctx.pick(250, 4000) * scale))
+    # (T) recordings: three independent chains (record with worker processes, then let TLC judge), side by side
+    def chain_next():
+        if "next" not in parts:
+            return [], {}
+        n_next = max(1, int(ctx.pick(130, 4000) * scale))
         jobs = [{"seed": ctx.seed * 1000 + k, "count": n_next, "masked": k % 2 == 0} for k in range(16)]
-        next_cases = [c for r in run_workers(MOD, "work_next", jobs, ctx.scratch) for c in r]
-        next_cases += run_workers(MOD, "work_next_replay", [{"cases": witness_next_cases()}], ctx.scratch, nproc=1)[0]
-        phase("record next")
-    if "run" in parts:
-        n_run = max(1, int(ctx.pick(14, 150) * scale))
+        cases = [c for r in run_workers(MOD, "work_next", jobs, ctx.scratch, nproc=NPROC) for c in r]
+        cases += run_workers(MOD, "work_next_replay", [{"cases": witness_next_cases()}], ctx.scratch, nproc=1)[0]
+        return cases, accept(ctx, cases, "next")
+
+    def chain_run():
+        if "run" not in parts:
+            return [], {}
+        n_run = max(1, int(ctx.pick(8, 150) * scale))
         fams = ["generic", "generic", "generic", "dst", "generic", "weekly", "generic", "sunoff", "generic", "dst"]
         rjobs = [{"seed": ctx.seed * 1000 + 500 + k, "count": n_run, "families": fams[k % len(fams):] + fams[:k % len(fams)]} for k in range(16)]
         rjobs[0]["extra"] = witness_scenarios() + bare_scenarios(random.Random(ctx.seed), "b%d" % ctx.seed)
-        run_results = [x for r in run_workers(MOD, "work_run", rjobs, ctx.scratch) for x in r]
-        phase("record run")
-    if "active" in parts:
-        n_act = max(1, int(ctx.pick(200, 3000) * scale))
+        results = [x for r in run_workers(MOD, "work_run", rjobs, ctx.scratch, nproc=NPROC) for x in r]
+        return results, accept(ctx, [x["case"] for x in results], "run", size=60)
+
+    def chain_active():
+        if "active" not in parts:
+            return [], {}
+        n_act = max(1, int(ctx.pick(120, 3000) * scale))
         ajobs = [{"seed": ctx.seed * 1000 + 800 + k, "count": n_act} for k in range(16)]
-        act_cases = [c for r in run_workers(MOD, "work_active", ajobs, ctx.scratch) for c in r]
-        phase("record active")
-    # TLC decides
-    rj_next = judge_next(ctx, next_cases, "next")
-    phase("tlc next")
-    run_cases, rj_run = judge_run(ctx, run_results, "run")
-    phase("tlc run")
-    rj_act = judge_active(ctx, act_cases, "active")
-    phase("tlc active")
+        ajobs[0]["extra"] = witness_active_cases()
+        cases = [c for r in run_workers(MOD, "work_active", ajobs, ctx.scratch, nproc=NPROC) for c in r]
+        return cases, accept(ctx, cases, "active")
+
+    with cf.ThreadPoolExecutor(max_workers=3) as ex:
+        f1, f2, f3 = ex.submit(chain_next), ex.submit(chain_run), ex.submit(chain_active)
+        next_cases, rj_next = f1.result()
+        run_results, rj_run = f2.result()
+        act_cases, rj_act = f3.result()
+    phase("record + tlc (3 chains)")
+    # reporting (TLC has decided)
+    judge_next(ctx, next_cases, "next", rj_next)
+    run_cases, _ = judge_run(ctx, run_results, "run", rj_run)
+    judge_active(ctx, act_cases, "active", rejects=rj_act)
     if parts == {"mc", "next", "run", "active"}:
         selftest(ctx, next_cases, run_cases, act_cases, set(rj_next) | set(rj_run) | set(rj_act))
     phase("selftest")
